@@ -209,4 +209,10 @@ func init() {
 		"		if !e {\n			continue\n		}\n", "		_ = e\n", "C02.R7.scan")
 	mut("C04", "the offset rewrite stops at the first pointer of another file", "cesium/internal/domain/delete.go",
 		"			if ptr.fileKey == key {\n				if deltaOffset, ok := resolvePointerOffset(ptr.TimeRange, offsetDeltaMap); ok {", "			if ptr.fileKey > key {\n				break\n			}\n			if ptr.fileKey == key {\n				if deltaOffset, ok := resolvePointerOffset(ptr.TimeRange, offsetDeltaMap); ok {", "C04.R3.gc")
+
+	// ---------------- C05.R4, C04.R2 path rule
+	mut("C05", "a rejected data-channel write keeps the uncommitted flag", "cesium/writer_stream.go",
+		"	if errors.Is(accumulatedErr, xcontrol.ErrUnauthorized) {\n		w.hasUncommittedData = false\n	}\n	return fr, accumulatedErr", "	if idxUnauthorized {\n		w.hasUncommittedData = false\n	}\n	return fr, accumulatedErr", "C05.R4.rejected")
+	mut("C04", "the end pointer is re-validated only when the start moved", "cesium/internal/domain/delete.go",
+		"			startDomain += 1\n		}\n	}\n	if db.idx.mu.pointers[endDomain] != end {\n		endDomain, _ = db.idx.unprotectedSearch(end.TimeRange)\n	}", "			startDomain += 1\n		}\n		if db.idx.mu.pointers[endDomain] != end {\n			endDomain, _ = db.idx.unprotectedSearch(end.TimeRange)\n		}\n	}", "C04.R2.atomic")
 }
